@@ -181,6 +181,9 @@ type columnSortIndex struct {
 // newSortIndex creates a new bitmap index column.
 func newSortIndex(indexName, columnName string) *column {
 	byKeys := func(a, b sortIndexItem) bool {
+		if a.Key == b.Key {
+			return a.Value < b.Value // rows with equal keys are distinct items
+		}
 		return a.Key < b.Key
 	}
 	return columnFor(indexName, &columnSortIndex{
